@@ -167,7 +167,7 @@ AutoSerialCases == { [Case("autoserial", [bg EXCEPT !.serial = Auto], FALSE, "ed
 (* automatic serial together with pre-specified key identifiers of every length class (the serial must not depend on them) *)
 Bytes32 == <<1, 2, 3, 4, 5, 6, 7, 8, 9, 10, 11, 12, 13, 14, 15, 16, 17, 18, 19, 20, 21, 22, 23, 24, 25, 26, 27, 28, 29, 30, 31, 32>>
 LongKidCases == { Case("longkid", [Base EXCEPT !.serial = ser, !.isCa = ca, !.aki = TRUE, !.kid = KidPre(k)], self, "ed25519", "ed25519", KidPre(ik), "keypair") :
-                    ser \in {Auto, Given(<<9>>)}, ca \in {NoCa, CaU}, k \in {SubSeq(Bytes32, 1, 20), SubSeq(Bytes32, 1, 21), Bytes32, <<200>>},
+                    ser \in {Auto, Given(<<9>>)}, ca \in {NoCa, CaU}, k \in {SubSeq(Bytes32, 1, 20), SubSeq(Bytes32, 1, 21), Bytes32, <<200>>, <<>>},
                     ik \in {SubSeq(Bytes32, 1, 20), SubSeq(Bytes32, 1, 21), Bytes32}, self \in Bool }
 
 Cases == LongKidCases \cup AutoSerialCases \cup PresenceCases \cup KuCases \cup PathLenCases \cup PrefixCases \cup SanCases \cup NcCases \cup DnCases
